@@ -139,8 +139,7 @@ func scenarioHistory(name string, w *World) *History {
 		}, "allegation empty-id", "domain create empty-memo", "send empty-memo", "prop create empty-id")
 		s.block([][]byte{
 			txAllegationVote(v0, "", 1, s.memo()), txAllegationVote(v2, "", 1, s.memo()),
-			txSend(u1, u2.Addr, oltAmt("1000000000000"), ""), // the same bytes again
-		}, "allegation vote empty-id", "allegation vote empty-id", "send empty-memo again")
+		}, "allegation vote empty-id", "allegation vote empty-id")
 		s.empty(3)
 		s.block([][]byte{txRelease(v1, s.memo()), txSend(u0, u1.Addr, oltAmt("1000000000000"), s.memo())}, "release", "send")
 		s.empty(2)
@@ -331,7 +330,19 @@ func scenarioMain(args []string) int {
 	name := fs.String("name", "govupdate", "scenario")
 	keys := fs.String("keys", "", "print committed keys with this prefix at the end")
 	list := fs.Bool("list", false, "print the scenario names")
+	cfgkeys := fs.Bool("cfgkeys", false, "print the keys of the governance update functions registered in the application")
 	fs.Parse(args)
+	if *cfgkeys {
+		ks := []string{}
+		for k := range action.NewGovUpdate().GovernanceUpdateFunction {
+			ks = append(ks, k)
+		}
+		sort.Strings(ks)
+		for _, k := range ks {
+			say("%s\n", k)
+		}
+		return 0
+	}
 	if *list {
 		for _, n := range scenarioNames {
 			say("%s\n", n)
